@@ -247,4 +247,5 @@ def replay(path):
     r = clih.run_cli(c["argv"] + ["--info-file", infop, "-o", os.path.join(wd, "o.fq"), inp])
     print("exit", r.exit)
     print(open(infop).read())
-    return 1
+    import sys
+    return common.replay_by_rerun(sys.modules[__name__], PROP, path)
